@@ -467,6 +467,28 @@ func runC03(c *Ctx) {
 		c.verdict(n == 1, c.nm(fn)+" | one response callback records answers", c.P.Pos(fn.Pos()), "one callback", fmt.Sprintf("%d function literal(s) of getCFHeadersForAllPeers store a *wire.MsgCFHeaders into a map, 1 tabled", n))
 	})
 
+	c.rule("C03.V4", "served checkpoint lists are re-fetched as soon as the header chain is past them: in cfHandler the test that triggers getCheckpts is minCheckpointHeight(<cached lists>) < <header height to sync to>, with no slack (a cached list that reaches above the current chain, as after a reorganisation below the last cached checkpoint, must not be trusted for another interval: its last entry belongs to a disconnected block and the honest peer's answer for the new branch would be judged against it)", func() {
+		fn := c.fn("(*neutrino.blockManager).cfHandler")
+		minCp := c.funcObj("neutrino", "minCheckpointHeight")
+		getCp := c.method("neutrino", "blockManager", "getCheckpts")
+		isMin := func(v ssa.Value) bool { return valIsCallTo(minCp)(ir.Strip(v)) }
+		other := func(v ssa.Value) bool {
+			if _, isC := v.(*ssa.Const); isC {
+				return false
+			}
+			return !ir.DerivesFrom(v, valIsCallTo(minCp))
+		}
+		g, odd := relGuard("minCheckpointHeight(cached lists) < header height", fn, isMin, other, token.LSS)
+		calls := find(fn, callTo(getCp))
+		construct := c.nm(fn) + " | cached checkpoint lists are refreshed when they end below the header height"
+		if len(g.sites) == 0 {
+			c.fail(construct, c.P.Pos(fn.Pos()), "no test of the form minCheckpointHeight(cached lists) < height found in cfHandler (a test with slack, e.g. minCheckpointHeight(..)+interval <= height, keeps stale lists after a reorganisation)"+join(odd))
+			return
+		}
+		c.mustFollow(fn, "cached lists end below the header height", c.successEdges(g), callTo(getCp), "b.getCheckpts(..)", nil, 1)
+		c.verdict(len(calls) >= 1, construct, c.P.Pos(fn.Pos()), fmt.Sprintf("%d test site(s), %d getCheckpts call(s)", len(g.sites), len(calls)), "cfHandler no longer calls getCheckpts")
+	})
+
 	c.rule("C03.O4", "every peer is heard before peers are judged: the response callbacks the block manager hands to queryAllPeers (getCheckpts, getCFHeadersForAllPeers, fetchFilterFromAllPeers) may retire the answering peer (close(peerQuit)) but never end the whole query (close(quit)): a peer that has not answered yet would be treated as silent and, in a dispute, banned, while the remaining answers are never compared", func() {
 		qf := c.field("neutrino", "blockManagerCfg", "queryAllPeers")
 		var bad, sites []string
